@@ -206,25 +206,46 @@ def reconstruct(jobs, keep, ff, files, trace, report_order, refused_idx=(), tags
             raise Unexplained("a result is needed but every observed report has been used")
         i = pending_reports[0]
         settle(i)
+        if d.tasks[i][0] in ("running", "idle", "spawned") and not d.token and tags and tags.get(i) in ("CANCELLED", "SKIPPED") and cancel_ahead[0] > 0:
+            need_token(i)
+            settle(i)
         if d.tasks[i][0] == "running" and d.token:
             settle(i)
         if d.tasks[i][0] != "done":
             raise Unexplained("file %d is reported next by the CLI but the model has not finished it (%s)" % (i, d.tasks[i][0]))
         if d.tasks[i][1] == 1 and (d.ff or d.refused or i in d.refused_idx) and not d.token:
-            # this report sets the token: every file the CLI did not report as skipped has looked at the token before
-            for j, t in enumerate(d.tasks):
-                if tags and tags.get(j) not in (None, "SKIPPED") and t[0] in ("idle", "spawned"):
-                    if t[0] == "idle":
-                        starting.add(j)
-                        if len(starting) > len(d.tasks):
-                            raise Unexplained("cannot start every file that ran before the first cancelling report")
-                        spawn(j)
-                    if d.tasks[j][0] == "spawned":
-                        d.task(j)
-                    if tags.get(j) in ("FAILED", "OK"):
-                        settle(j)             # what it did without the engine seeing anything (a parse error ...) it did before
+            start_all_that_ran()
         pending_reports.pop(0)
         d.report(i)
+
+    def start_all_that_ran():
+        # the token is about to be set: every file the CLI did not report as skipped has looked at the token before
+        for j, t in enumerate(d.tasks):
+            if tags and tags.get(j) not in (None, "SKIPPED") and t[0] in ("idle", "spawned"):
+                if t[0] == "idle":
+                    starting.add(j)
+                    if len(starting) > len(d.tasks):
+                        raise Unexplained("cannot start every file that ran before the token was set")
+                    spawn(j)
+                if d.tasks[j][0] == "spawned":
+                    d.task(j)
+                if tags.get(j) in ("FAILED", "OK"):
+                    settle(j)             # what it did without the engine seeing anything (a parse error ...) it did before
+
+    def need_token(i):
+        """file i is being cancelled / skipped: the token is set by Ctrl-C if one is still ahead in the trace (its place among the
+        engine-side events is only known approximately), otherwise by the report of an earlier failure"""
+        if cancel_ahead[0] > 0:
+            cancel_ahead[0] -= 1
+            skip_cancel[0] += 1
+            start_all_that_ran()
+            d.ctrlc()
+            canon.append(PCANCEL)
+            return
+        while not d.token:
+            if pending_reports and pending_reports[0] == i:
+                raise Unexplained("file %d closes a session before it is finished although no failure has been reported" % i)
+            report_next()
 
     def settle(i, guard=0):
         """silent steps of task i until it would emit an event or is done"""
@@ -267,6 +288,8 @@ def reconstruct(jobs, keep, ff, files, trace, report_order, refused_idx=(), tags
             else:
                 report_next()
 
+    cancel_ahead = [sum(1 for e in trace if e[0] == "cancel")]
+    skip_cancel = [0]
     canon = []            # the observed events in the order they were matched (see `deferred`)
     deferred = []         # closes that the ENGINE caused by dying on its own, of files the CLI cancelled later: the model closes
                           # a session only when the file shuts down, so they are matched once the token is set
@@ -276,11 +299,9 @@ def reconstruct(jobs, keep, ff, files, trace, report_order, refused_idx=(), tags
         settle(i)
         t = d.tasks[i]
         if t[0] == "running":
-            # it is being cancelled: the token must have been set by an earlier failure
-            while not d.token:
-                if pending_reports and pending_reports[0] == i:
-                    raise Unexplained("file %d closes a session before it is finished although no failure has been reported" % i)
-                report_next()
+            # it is being cancelled: the token must have been set by Ctrl-C or by an earlier failure
+            if not d.token:
+                need_token(i)
             settle(i)
             t = d.tasks[i]
         if t[0] != "closing" or e[2] not in t[2]:
@@ -322,8 +343,13 @@ def reconstruct(jobs, keep, ff, files, trace, report_order, refused_idx=(), tags
                 continue
             do_close(e)
         elif kind == "cancel":
-            d.ctrlc()
-            canon.append(e)
+            if skip_cancel[0] > 0:
+                skip_cancel[0] -= 1        # already performed where the first cancelled file needed it
+            else:
+                cancel_ahead[0] -= 1
+                start_all_that_ran()
+                d.ctrlc()
+                canon.append(e)
         elif kind in ("drop", "mgmt-close"):
             flush(True)
             finish_stream(d, pending_reports, report_next, settle)
